@@ -8,13 +8,17 @@ K(k, sub) == [k |-> k, sub |-> sub]
 NoneI == {K("none", "nilmsg"), K("none", "nildata"), K("none", "flood"), K("none", "topicflood")}
 MCKindsFull(p) ==
     CASE p = "single" ->
-            NoneI \cup {K("checked", s) : s \in {"badcreate", "invalid", "wrongversion", "noteligible", "othershard", "ok",
-                                                 "validatefail", "savefail", "whitelisted"}}
-                  \cup {K("unchecked", s) : s \in {"prefok", "selfok", "prefinvalid"}}
+            NoneI \cup {K("checked", s) : s \in {"badcreate", "invalid", "wrongversion", "wrongchain", "noteligible", "othershard",
+                                                 "ok", "validatefail", "savefail", "whitelisted"}}
+                  \cup {K("unchecked", s) : s \in {"prefok", "selfok", "prefinvalid", "prefwrongversion"}}
       [] p = "multi" ->
-            NoneI \cup {K("checked", s) : s \in {"unmarshal", "empty", "topicflood2", "chunkerr", "chunkpart", "badcreate",
-                                                 "invalid", "noteligible", "othershard", "ok", "ok2", "validatefail"}}
-                  \cup {K("unchecked", s) : s \in {"prefok", "prefinvalid"}}
+            NoneI \cup {K("checked", s) : s \in {"unmarshal", "empty", "topicflood2", "chunkerr", "chunkpart", "chunkcomplete",
+                                                 "badcreate", "invalid", "wrongversion", "wrongchain", "noteligible", "othershard",
+                                                 "whitelisted", "ok", "ok2", "validatefail", "savefail",
+                                                 \* two-element batches: the named element is the first / the last one
+                                                 "wvfirst", "wvlast", "wclast", "invalidlast", "badcreatelast", "othershardlast",
+                                                 "noteligiblelast"}}
+                  \cup {K("unchecked", s) : s \in {"prefok", "prefinvalid", "prefwrongversion"}}
       [] p = "resolver" ->
             {K("none", "nilmsg"), K("none", "flood"), K("none", "topicflood")}
                   \cup {K("checked", s) : s \in {"badrequest", "nilvalue", "badtype", "notfound", "ok", "okarray", "senderr"}}
@@ -24,7 +28,9 @@ MCKindsSmall(p) ==
     ELSE {K("none", "flood"), K("checked", "ok"), K("checked", "invalid"), K("unchecked", "prefok")}
 AllSubs == <<"nilmsg", "nildata", "flood", "topicflood", "badcreate", "invalid", "wrongversion", "noteligible", "othershard",
              "ok", "ok2", "okarray", "validatefail", "savefail", "whitelisted", "unmarshal", "empty", "topicflood2", "chunkerr",
-             "chunkpart", "badrequest", "nilvalue", "badtype", "notfound", "senderr", "prefok", "selfok", "prefinvalid">>
+             "chunkpart", "badrequest", "nilvalue", "badtype", "notfound", "senderr", "prefok", "selfok", "prefinvalid",
+             "wrongchain", "chunkcomplete", "wvfirst", "wvlast", "wclast", "invalidlast", "badcreatelast", "othershardlast",
+             "noteligiblelast", "prefwrongversion">>
 MCKindIndex(kd) == CHOOSE n \in 1..Len(AllSubs) : AllSubs[n] = kd.sub
 GenNext  == Len(hist) < Depth /\ Next
 GenSpec  == Init /\ [][GenNext]_vars
